@@ -1124,7 +1124,9 @@ tp_shutdown(tp_p tp) {
 	if (0 != tp->shutdown)
 		return;
 	LCB_VERIF_POINT(LCB_VP_SHUTDOWN_TEST_TO_INC);
-	tp->shutdown ++;
+	/* Only one of concurrent callers may do the shutdown. */
+	if (0 != __atomic_fetch_add(&tp->shutdown, 1, __ATOMIC_SEQ_CST))
+		return;
 	/* Private virtual thread. */
 	tp->pvt->state = TP_THREAD_STATE_STOP;
 	if (NULL != tp->s.tpt_on_stop) {
